@@ -351,6 +351,22 @@ fn explore(ctx: &Ctx) -> Outcome {
         .reduce(Tally::new, Tally::merge);
     layers.push(json!({"family": "load → edit (delete subsets × title × sets) → save", "cases": f4.len(), "completed": true}));
     total.absorb(t);
+    // family 6: state carried between calls — a series of failing parses right before each case
+    {
+        let mut t = Tally::new();
+        for c in f4.iter().chain(f1.iter().step_by(37)) {
+            props::poison::failing_calls();
+            t.cases += 1;
+            t.nontrivial += 1;
+            if let Some((sig, summary)) = judge(c, &mut t) {
+                let mut cj = case_json(c);
+                cj["after_failed_calls"] = json!(true);
+                t.violate(format!("after-failed-calls:{}", sig), summary, cj);
+            }
+        }
+        layers.push(json!({"family": "a fixed series of failing parses/decompressions on the same thread right before the case", "cases": t.cases, "completed": true}));
+        total.absorb(t);
+    }
     // family 5: scale — long messages and many entries (widths beyond 8 and 16 bits)
     let f5 = scale_cases();
     let t = f5
@@ -423,6 +439,13 @@ fn replay(ctx: &Ctx, case: &Value) -> Vec<Violation> {
     }
     let c = case_from_json(case);
     let mut t = Tally::new();
+    if case["after_failed_calls"].as_bool().unwrap_or(false) {
+        props::poison::failing_calls();
+        return match judge(&c, &mut t) {
+            Some((sig, summary)) => vec![Violation { sig: format!("after-failed-calls:{}", sig), summary, case: case.clone() }],
+            None => vec![],
+        };
+    }
     match judge(&c, &mut t) {
         Some((sig, summary)) => vec![Violation { sig: if c.loaded.is_some() { format!("loaded-then-edited:{}", sig) } else { sig }, summary, case: case.clone() }],
         None => vec![],
